@@ -110,6 +110,46 @@ Theorem C20_cmp256 : forall u v, wf256 u -> wf256 v ->
   u256_cmp u v = match val256 u ?= val256 v with Lt => -1 | Eq => 0 | Gt => 1 end.
 Proof. exact u256_cmp_spec. Qed.
 
+(** bitwise operations are the bitwise operations on the values (the limb-wise results of the model's
+    run128/run256 runners are exactly these records) *)
+Theorem C20_and128 : forall u v, wf128 u -> wf128 v ->
+  val128 (mk128 (Z.land (h1 u) (h1 v)) (Z.land (h0 u) (h0 v))) = Z.land (val128 u) (val128 v).
+Proof. exact and128. Qed.
+Theorem C20_or128 : forall u v, wf128 u -> wf128 v ->
+  val128 (mk128 (Z.lor (h1 u) (h1 v)) (Z.lor (h0 u) (h0 v))) = Z.lor (val128 u) (val128 v).
+Proof. exact or128. Qed.
+Theorem C20_xor128 : forall u v, wf128 u -> wf128 v ->
+  val128 (mk128 (Z.lxor (h1 u) (h1 v)) (Z.lxor (h0 u) (h0 v))) = Z.lxor (val128 u) (val128 v).
+Proof. exact xor128. Qed.
+Theorem C20_not128 : forall u, wf128 u -> val128 (mk128 (not64 (h1 u)) (not64 (h0 u))) = W * W - 1 - val128 u.
+Proof. exact not128. Qed.
+Theorem C20_and256 : forall u v, wf256 u -> wf256 v ->
+  val256 (mk256 (Z.land (q3 u) (q3 v)) (Z.land (q2 u) (q2 v)) (Z.land (q1 u) (q1 v)) (Z.land (q0 u) (q0 v))) = Z.land (val256 u) (val256 v).
+Proof. exact and256. Qed.
+Theorem C20_or256 : forall u v, wf256 u -> wf256 v ->
+  val256 (mk256 (Z.lor (q3 u) (q3 v)) (Z.lor (q2 u) (q2 v)) (Z.lor (q1 u) (q1 v)) (Z.lor (q0 u) (q0 v))) = Z.lor (val256 u) (val256 v).
+Proof. exact or256. Qed.
+Theorem C20_xor256 : forall u v, wf256 u -> wf256 v ->
+  val256 (mk256 (Z.lxor (q3 u) (q3 v)) (Z.lxor (q2 u) (q2 v)) (Z.lxor (q1 u) (q1 v)) (Z.lxor (q0 u) (q0 v))) = Z.lxor (val256 u) (val256 v).
+Proof. exact xor256. Qed.
+Theorem C20_not256 : forall u, wf256 u ->
+  val256 (mk256 (not64 (q3 u)) (not64 (q2 u)) (not64 (q1 u)) (not64 (q0 u))) = W4 - 1 - val256 u.
+Proof. exact not256. Qed.
+
+(** casts preserve every value that fits the target width *)
+Theorem C20_cast_256_128 : forall u, wf256 u -> val256 u < W * W -> val128 (mk128 (q1 u) (q0 u)) = val256 u.
+Proof. exact cast_256_to_128. Qed.
+Theorem C20_cast_256_64 : forall u, wf256 u -> val256 u < W -> q0 u = val256 u.
+Proof. exact cast_256_to_64. Qed.
+Theorem C20_cast_128_64 : forall u, wf128 u -> val128 u < W -> h0 u = val128 u.
+Proof. exact cast_128_to_64. Qed.
+Theorem C20_cast_128_256 : forall u, wf128 u -> val256 (mk256 0 0 (h1 u) (h0 u)) = val128 u.
+Proof. exact cast_128_to_256. Qed.
+Theorem C20_cast_64_256 : forall x, val256 (mk256 0 0 0 x) = x.
+Proof. exact cast_64_to_256. Qed.
+Theorem C20_cast_64_128 : forall x, val128 (mk128 0 x) = x.
+Proof. exact cast_64_to_128. Qed.
+
 (** the pre-repair code violates the property (witnesses replayed on the implementation by the corpus) *)
 Theorem C20_mul128_orig_refuted :
   exists u v, wf128 u /\ wf128 v /\ h1 v = 0 /\ W * W <= val128 u * val128 v /\ u128_mul_orig u v <> Panic.
@@ -154,6 +194,20 @@ Print Assumptions C20_cmp64.
 Print Assumptions C20_cmp128.
 Print Assumptions C20_cmp128_64.
 Print Assumptions C20_cmp256.
+Print Assumptions C20_and128.
+Print Assumptions C20_or128.
+Print Assumptions C20_xor128.
+Print Assumptions C20_not128.
+Print Assumptions C20_and256.
+Print Assumptions C20_or256.
+Print Assumptions C20_xor256.
+Print Assumptions C20_not256.
+Print Assumptions C20_cast_256_128.
+Print Assumptions C20_cast_256_64.
+Print Assumptions C20_cast_128_64.
+Print Assumptions C20_cast_128_256.
+Print Assumptions C20_cast_64_256.
+Print Assumptions C20_cast_64_128.
 Print Assumptions C20_mul128_orig_refuted.
 Print Assumptions C20_mul256_orig_refuted.
 Print Assumptions C20_shl256_orig_refuted.
